@@ -12,8 +12,9 @@ Transcribed from `connectionpool.py` (`_new_conn`, `_get_conn`, `_put_conn`, `_m
 
 `urlopen` can also fail *outside* the I/O steps of an attempt, and the scripts say where: before the
 checkout (`preflight`: `set_file_position` on a file-like body that cannot be rewound, `_get_timeout` on a
-timeout that `Timeout` rejects) and in the wait between two attempts (`waitExc`: `Retry-After` that does not
-parse, `time.sleep` interrupted).
+timeout that `Timeout` rejects), after the checkout but before anything is sent (`connReject`: a header value that
+`putheader` cannot encode — the request is rejected between `putrequest()` and `endheaders()`) and in the wait
+between two attempts (`waitExc`: `Retry-After` that does not parse, `time.sleep` interrupted).
 
 Ids are indices: connection `c` is `conns[c]`, socket `k` is `socks[k]`, response `r` is `resps[r]`.
 A socket is *open* exactly as long as somebody references it (`conn.sock`, or a reader made by
@@ -413,6 +414,24 @@ def connRequest (s : State) (c : Nat) (rid : Nat) (a : Attempt) : State × Excep
         -- the server reacts: what it held back of the previous reply, then the part of the new reply it sends at once
         (setSock s k fun sk => { sk with inbound := sk.inbound ++ (sk.held ++ serverNow rid a), held := serverHeld rid a,
                                          after := a.after }, .ok k)
+
+/-- `conn.request(...)` with a header value that cannot be encoded (`headers={"X-Bad": "\u0100"}`): `putrequest`
+(state check, `__state = _CS_REQ_STARTED`, request line and `Host` / `Accept-Encoding` lines go to the connection's
+output buffer `_buffer`), then `putheader` raises `UnicodeEncodeError` (a `ValueError`; the class table has the base
+class only) from `value.encode("latin-1")`.  `endheaders()` is never reached: no auto-connect, not a byte is written
+to the socket, the server sees nothing.  (The lines collected in `_buffer` stay in the connection object; `urlopen`
+throws that object away — `discard`.) -/
+def connReject (s : State) (c : Nat) : State × Except Exc Nat :=
+  let s := forgetClosedPending s c
+  match s.conns[c]? with
+  | none => (s, .error (exc Gen.cAttributeError))
+  | some cn =>
+    if cn.http != .idle then (s, .error (exc Gen.cCannotSendRequest)) else
+    (setConn s c fun x => { x with http := .reqSent }, .error (exc Gen.cValueError))
+
+/-- `conn.request(...)` of a request whose header block can (`bad = false`) / cannot be encoded -/
+def connRequestH (s : State) (c : Nat) (rid : Nat) (a : Attempt) (bad : Bool) : State × Except Exc Nat :=
+  if bad then connReject s c else connRequest s c rid a
 
 /-- the exceptions `_make_request` swallows around `conn.request` -/
 def sendSwallowed (e : Exc) : Bool :=
@@ -904,6 +923,8 @@ structure ReqCfg where
   badTimeout : Bool := false        -- the per-request `timeout` is one that `Timeout` rejects (`ValueError`)
   badPoolTimeout : Bool := false    -- `pool_timeout` is negative: `queue.get(block=True, timeout=…)` rejects it
                                     -- (`ValueError`); a `block=False` pool never looks at it
+  badHeader : Bool := false         -- a header value that cannot be encoded as latin-1: `putheader` raises
+                                    -- `UnicodeEncodeError` (a `ValueError`) between `putrequest` and `endheaders`
 deriving Repr
 
 inductive RespOut | resp (r : Nat) | exc (e : Exc)
@@ -960,7 +981,7 @@ def attachResp (s : State) (c r : Nat) (rc : ReqCfg) : State × RespOut :=
 
 /-- `_make_request(conn, …)` for a plain-HTTP pool (`_validate_conn` is a no-op) -/
 def makeRequest (s : State) (c rid : Nat) (a : Attempt) (rc : ReqCfg) : State × RespOut :=
-  let (s, ek) := connRequest s c rid a
+  let (s, ek) := connRequestH s c rid a rc.badHeader
   -- a swallowed send error leaves the socket where it was
   let ek : Except Exc Nat := match ek with
     | .ok k => .ok k
